@@ -354,6 +354,106 @@ def _status_returns_from(f, var, solver, b, si):
     return found
 
 
+def failure_edges(f, acq):
+    """(block, truth, successor, call) for every tested acquisition of `f`: the edge taken when the acquisition fails."""
+    for b in f.blocks.values():
+        if b.cond is None or len(b.succs) != 2:
+            continue
+        for truth, succ in ((True, b.succs[0]), (False, b.succs[1])):
+            hit = None
+            for op, L, R, Le, Re in cond_atoms(b.cond, truth):
+                ce = Le.strip() if Le is not None else None
+                if ce is not None and ce.cls == "CallExpr" and ce.callee in acq and R == ("c", 0) and op == "==":
+                    hit = ce
+                # asprintf / vasprintf allocate through an out-parameter and answer -1
+                if ce is not None and ce.cls == "CallExpr" and ce.callee in ("asprintf", "vasprintf") and ((op == "==" and R == ("c", -1)) or (op == "<" and R == ("c", 0))):
+                    hit = ce
+            if hit is not None and succ is not None:
+                yield b, truth, succ, hit
+
+
+def static_atomic_rule(prog, rep, only_files=None):
+    """A failed operation leaves the unit's own bookkeeping as it was: an integer variable at file scope that was given a computed
+    value (incremented, doubled, assigned from an expression) before an acquisition must not still hold it when the acquisition's
+    failure edge reaches a failure return -- the recorded capacity or count would then describe storage that was never obtained.
+    (An assignment on the way from the failure edge to the return counts as the roll-back; constants and results of lazy
+    initialisation are not bookkeeping of this call.)"""
+    from ..dataflow import Solver, edge_kinds
+    acq = own.discover_acquirers(prog)
+    n = 0
+    for u in prog.units.values():
+        gids = {g["id"]: g for g in u.globals if g.get("isdef") and not g.get("const") and not g.get("staticlocal")
+                and (u.types.get(g.get("ty")) or {}).get("kind") in ("int", "uint", "size", "long", "ulong", "bool", "char", "short", "ushort", "enum")}
+        if not gids:
+            continue
+        for f in u.funcs:
+            if f.file != u.path or (only_files is not None and f.file not in only_files):
+                continue
+            rt = (u.types.get(f.ret) or {}).get("kind")
+            if rt != "int":
+                continue
+            edges = list(failure_edges(f, acq))
+            if not edges:
+                continue
+
+            def transfer(st, e):
+                if e.is_assign or e.is_incdec:
+                    t = norm(e.kid(0))
+                    if t[0] == "v" and len(t) > 2 and t[2] in gids and gids[t[2]]["name"] == t[1]:
+                        st = frozenset(x for x in st if x[0] != t[1])
+                        computed = e.is_incdec or e.op != "=" or norm(e.kid(1))[0] != "c"
+                        if computed and not (e.op == "=" and e.kid(1) is not None and e.kid(1).strip() is not None and e.kid(1).strip().cls == "CallExpr"):
+                            st = st | {(t[1], e.where)}
+                return st
+
+            sol = Solver(f, frozenset(), transfer).run()
+            for b, truth, succ, hit in edges:
+                n += 1
+                start = sol.OUT_EDGE.get((b.id, 0 if truth else 1))
+                if start is None:
+                    continue
+                # from the failure edge on, an assignment is the roll-back
+                IN = {succ: start}
+                work = [succ]
+                bad = None
+                while work and bad is None:
+                    k = work.pop()
+                    st = IN[k]
+                    blk = f.blocks[k]
+                    done = False
+                    for e in blk.elems:
+                        if e.cls == "ReturnStmt":
+                            v = norm(e.kid(0)) if e.kids else None
+                            if st and v is not None and v[0] == "c" and v[1] != 0:
+                                bad = (e, st)
+                            done = True
+                            break
+                        if e.is_assign or e.is_incdec:
+                            t = norm(e.kid(0))
+                            if t[0] == "v" and len(t) > 2 and t[2] in gids:
+                                st = frozenset(x for x in st if x[0] != t[1])
+                    if done or blk.noreturn:
+                        continue
+                    for s2 in blk.succs:
+                        if s2 is None:
+                            continue
+                        if s2 in IN:
+                            j = IN[s2] | st
+                            if j != IN[s2]:
+                                IN[s2] = j
+                                work.append(s2)
+                        else:
+                            IN[s2] = st
+                            work.append(s2)
+                inst = "%s in %s" % (hit.text[:50], f.name)
+                rep.check(bad is None, "ATOMIC-static", inst, hit.where,
+                          "when this acquisition fails the function returns failure with %s still holding the value computed at %s: the unit's "
+                          "bookkeeping no longer matches what it owns, and the next call relies on it" % (
+                              ", ".join(sorted(x[0] for x in bad[1])) if bad else "", ", ".join(sorted(x[1] for x in bad[1])) if bad else ""),
+                          function=f.name, construct="static:" + (sorted(x[0] for x in bad[1])[0] if bad else ""))
+    return n
+
+
 def reported_rule(prog, rep, only_files=None):
     """"Allocation failure is reported": from the NULL edge of every tested acquisition, every return that can be reached
     carries the function's failure value (non-zero for int functions, NULL for pointer functions) -- a cleanup ladder that
@@ -647,6 +747,8 @@ def run(tier):
         reserve_flag_rule(prog, rep)
         infallible_rule(prog, rep)
         reported_rule(prog, rep)
+        if static_atomic_rule(prog, rep) < 3:
+            rep.defer_broken("ATOMIC-static: fewer than 3 tested acquisitions found in units that keep integer bookkeeping at file scope")
         if destroy_then_fail_rule(prog, rep) < 20:
             rep.defer_broken("ATOMIC: fewer than 20 release/delete calls found in the event, timer and I/O units")
         if realloc_nonzero_rule(prog, rep) < 4:
